@@ -376,3 +376,59 @@ Theorem C06_exchange_shared_client_sentinel_refuted :
   /\ no_cookie_header xenv0 xcase0 = true /\ cookie_header_of (xown xcase0) = None.
 Proof. exact shared_client_sentinel_refuted. Qed.
 Print Assumptions C06_exchange_shared_client_sentinel_refuted.
+
+(* ---- application/x-www-form-urlencoded bodies (Model section 15) ---- *)
+
+(* urllib.parse.urlencode / werkzeug _urlencode read back by the standard form decoder (split at the ampersand, then at the first
+   equals sign, percent-decode with plus = space), for ALL lists of (name, text) pairs over all code-point strings and for the
+   safe sets of all three transports *)
+Theorem C06_form_urlencode_roundtrip : forall t ps w,
+  urlencode (form_safe t) ps = Some w -> decode_form w = Some ps.
+Proof. intros t ps w. exact (urlencode_roundtrip (form_safe t) ps w (form_safe_ok t)). Qed.
+Print Assumptions C06_form_urlencode_roundtrip.
+
+(* every form value of the modelled fragment (object of scalars, array of such objects; any strings), every transport: what the
+   application receives for the case body (= the value prepared ONCE by the generation / examples / coverage phase, handed to the
+   client library as it is) decodes to the pairs the value stands for.  Region: werkzeug does not take a non-empty list *)
+Theorem C06_form_body_roundtrip_partial : forall t v w,
+  form_shape v = true -> wsgi_array_form t v = false ->
+  form_path ser_as_is t v = WBody w -> decode_form w = pairs_of v.
+Proof. exact form_body_roundtrip. Qed.
+Print Assumptions C06_form_body_roundtrip_partial.
+
+(* ... and a body IS sent whenever every text can be encoded (no lone surrogate) *)
+Theorem C06_form_body_sent_partial : forall t v,
+  form_shape v = true -> wsgi_array_form t v = false -> form_encodable v = true ->
+  exists ps w, pairs_of v = Some ps /\ form_path ser_as_is t v = WBody w /\ decode_form w = Some ps.
+Proof. exact form_body_sent. Qed.
+Print Assumptions C06_form_body_sent_partial.
+
+(* finding F14: an array-typed form body cannot be sent through the WSGI transport at all (AttributeError in werkzeug) *)
+Theorem C06_form_body_wsgi_array_refuted :
+  form_shape f_tag0 = true /\ form_encodable f_tag0 = true /\ wsgi_array_form TWsgi f_tag0 = true
+  /\ form_path ser_as_is TWsgi f_tag0 = WRaises
+  /\ form_path ser_as_is TRequests f_tag0 = WBody f_tag0_wire /\ form_path ser_as_is TAsgi f_tag0 = WBody f_tag0_wire.
+Proof. exact form_wsgi_array_refuted. Qed.
+Print Assumptions C06_form_body_wsgi_array_refuted.
+
+(* on the path generation -> wire prepare_urlencoded is applied exactly once (the serializer adds none); object-typed forms are
+   fixed points, so they cannot tell the two rules apart *)
+Theorem C06_form_prepared_exactly_once : forall t v,
+  form_path ser_as_is t v = form_wire t (prepare_urlencoded v)
+  /\ (forall d, form_path ser_prepares_again t (FDict d) = form_path ser_as_is t (FDict d)).
+Proof. exact form_prepared_once. Qed.
+Print Assumptions C06_form_prepared_exactly_once.
+
+(* sentinel for the seeded regression C06_e: prepare_urlencoded is not idempotent; a serializer that prepares the case body once
+   more sends the array form [{tag: 0}] as %28%27tag%27%2C+%270%27%29=arbitrary-value, which does not decode to [(tag, 0)];
+   the rule of the code sends tag=0 *)
+Theorem C06_form_prepared_twice_sentinel_refuted :
+  form_shape f_tag0 = true /\ pairs_of f_tag0 = Some [(f_tag, f_zero)]
+  /\ prepare_urlencoded (prepare_urlencoded f_tag0) <> prepare_urlencoded f_tag0
+  /\ form_path ser_prepares_again TRequests f_tag0 = WBody f_tag0_twice
+  /\ form_path ser_prepares_again TAsgi f_tag0 = WBody f_tag0_twice
+  /\ decode_form f_tag0_twice <> pairs_of f_tag0
+  /\ form_path ser_as_is TRequests f_tag0 = WBody f_tag0_wire
+  /\ decode_form f_tag0_wire = pairs_of f_tag0.
+Proof. exact form_prepared_twice_sentinel_refuted. Qed.
+Print Assumptions C06_form_prepared_twice_sentinel_refuted.
